@@ -112,7 +112,7 @@ CLAIMED.update({
 
 CLAIMED.update({
     "C06": dict(
-        engine="mir2smt",
+        engine="mir2smt+mirsem",
         technique="symbolic execution of the rustc MIR of Context::subtype_of / supertype_of / cheap_supertype_of (+ Type::eq, is_mono_value_class) into SMT; "
                   "the discriminants of two or three Type operands are solver variables over all fieldless variants; z3 decides the preorder/tower laws; the encoding "
                   "is validated against the real function on all concrete pairs and counterexamples are replayed natively",
@@ -120,7 +120,10 @@ CLAIMED.update({
         text="Kernel-level partial claim on the monomorphic fragment (the 21 fieldless variants of enum Type except the error placeholders): z3 shows for all pairs and "
              "triples that the public subtype_of/supertype_of are decided by the fast table alone, and that the judgement is reflexive, transitive, antisymmetric, has Never "
              "below and Obj above every type (strictly), and orders Bool <: Nat <: Int <: Ratio <: Float <: Complex with none of the converses and nothing else below a tower "
-             "class. T <: (T or U), (T and U) <: T, singleton/enum types below their class, and all structural/nominal judgement are not decided.",
+             "class. Stage 2 (engine mirsem on Context::structural_supertype_of): for unions and intersections of two (thorough: three) arbitrary member types z3 shows that every Or / And "
+             "combination rule is sound given sound answers on the members (one inductive step for nested unions / intersections) and that (T or U) :> T, (T or U) :> U, T :> (T and U), "
+             "U :> (T and U), commutativity and reflexivity of both are answered true when members are only assumed reflexive. Singleton/enum types below their class, refinements, Not, "
+             "polymorphic and nominal judgement are not decided.",
         note="Trusts rustc's MIR dump as the semantics of the source, engines/mir2smt.py (validated per run: the encoded judgement equals the real cheap_supertype_of on all 441 "
              "concrete pairs, cargo test on the scratch copy), z3. Type::addr_eq is a free boolean that can be true only for equal discriminants; self: &Context is opaque.",
         design="3/C06"),
@@ -160,7 +163,7 @@ CLAIMED.update({
 
 CLAIMED.update({
     "C14": dict(
-        engine="mir2smt",
+        engine="mir2smt+mirsem",
         technique="symbolic execution of the rustc MIR of PyCodeGenerator::push_lnotab and the stack counters (stack_inc, stack_dec, stack_inc_n, stack_dec_n) with a heap-lite "
                   "model (lazy structs, Vec<u8> of concrete length with symbolic bytes) on an arbitrary current unit; z3 decides the decoded line table and the counter invariant for one "
                   "step from any valid state; counterexamples are replayed natively on a real PyCodeGenerator",
@@ -170,8 +173,11 @@ CLAIMED.update({
              "(lasti - prev_lasti, line - prev_lineno), the table stays a sequence of pairs, earlier entries are untouched, prev_lineno/prev_lasti end at (line, lasti), nothing panics; "
              "(2) declared stack size - from any state with stacksize >= stack_len, after any of the four counter operations stack_len is exact, stacksize = max(old, stack_len) and "
              "never falls below stack_len, and an impossible decrement aborts instead of wrapping; one step from an arbitrary state covers emission histories of any length for these "
-             "counters. That each emit_* function calls the counters in a way that dominates the interpreter's stack effect, jump targets, constant/name/local index ranges, the "
-             "3.10+/3.11 line tables, exception tables and the other sites that edit co_lnotab (block exit) are not decided.",
+             "counters; (3) cell slots (engine mirsem) - for every code buffer of 1 or 2 (thorough 3) instruction pairs with arbitrary bytes and every pair of slots below 256, the pass that "
+             "patches already emitted code when an inner function captures a local (rewrite_captured_fast, targets before 3.11) turns exactly the LOAD_FAST / STORE_FAST of that variable's "
+             "co_varnames slot into LOAD_DEREF / STORE_DEREF of its co_cellvars slot and changes nothing else, and changes nothing when the variable is not captured. "
+             "That each emit_* function calls the counters in a way that dominates the interpreter's stack effect, jump targets, constant/name/local index ranges, the "
+             "3.10+/3.11 line tables, exception tables, EXTENDED_ARG slots and the other sites that edit co_lnotab (block exit) are not decided.",
         note="Trusts rustc's MIR dump, engines/mir2smt.py with its heap-lite models (PyCodeGenStack::last/last_mut return the current unit, Expr::ln_begin is an arbitrary Option<u32>, "
              "crash() aborts, diagnostics construction opaque), z3. Magnitudes: stacksize and n below 2^31.",
         design="3/C14"),
@@ -249,7 +255,10 @@ CLAIMED.update({
              "constant definitions and instant blocks (variable definitions, records) - the predicate that decides whether check_expr reports a side effect answers 'forbidden' exactly "
              "when the innermost enclosing block that is not an instant block is a function or a constant context, and 'allowed' exactly when it is a procedure or the module. That is "
              "the part of 'a function cannot perform side effects, the same body in a procedure or at top level can' that does not depend on what counts as an effect. Which expressions "
-             "check_expr treats as effects (procedure calls, mutable references), how it pushes and pops the stack while walking the HIR, and lambdas' own kinds are read, not decided.",
+             "check_expr treats as effects (mutable references, `is` comparisons), how it pushes and pops the stack while walking the HIR, and lambdas' own kinds are read, not decided. "
+             "Stage 2 (visits/<shape>): on HIR node shapes (calls with positional / variadic / keyword arguments, method calls, operators, collection literals, type ascriptions, "
+             "attribute accesses) check_expr passes every eagerly evaluated child to check_expr on every path, and a call with a procedural callee or method name pushes an effect error "
+             "whenever the context predicate answers 'forbidden' - by induction the traversal reaches every procedure call of an expression tree of those node kinds.",
         note="Trusts rustc's MIR dump, engines/mirsem.py + mirflow.py, z3, the std contract models listed in the evidence, and the invariant that only SideEffectChecker::check pushes Module "
              "(once, first). The encoding is validated per run against the real function on all stacks of depth <= 3 and a sample of deeper ones (cargo test on the scratch copy).",
         design="0b/C22"),
